@@ -1,5 +1,6 @@
 import Hms.Sexp
 import Hms.Check.Check
+import Hms.Check.Template
 /-! Driver commands of the "Analyzer" area (C03). `dispatchAnalyzer cmd payload` answers
 `some line` for the commands it owns and `none` otherwise.
 
@@ -202,9 +203,65 @@ def cmdCheck (payload : String) : String :=
       let rules := sortStrings (r.errs.map fun e => e.rule.name)
       s!"V={joinOrDash v} R={joinOrDash rules} W={(warnings p).length} T=({" ".intercalate (r.tys.map tySexp)})"
 
+namespace TDecode
+open PDecode
+
+partial def ty (s : Sexp) : D Ty :=
+  match s with
+  | .atom "null" => pure .null | .atom "int" => pure .int | .atom "float" => pure .float | .atom "bool" => pure .bool
+  | .atom "str" => pure .str | .atom "range" => pure .range | .atom "any" => pure .any | .atom "anyobj" => pure .anyobj
+  | .list [.atom "list", t] => do pure (.list (← ty t))
+  | .list [.atom "opt", t] => do pure (.opt (← ty t))
+  | _ => bad "type" s
+
+def method (s : Sexp) : D IMethod :=
+  match s with
+  | .list [n, .list ps, r, m, x] => do
+    let params ← ps.mapM fun p => match p with
+      | .list [pn, pt] => do pure (← str pn, ← ty pt)
+      | _ => bad "param" p
+    pure ⟨← str n, params, ← ty r, m.asNat?.getD 0, x.asBool?.getD false⟩
+  | _ => bad "method" s
+
+def impl (s : Sexp) : D Impl :=
+  match s with
+  | .list [.atom "impl", .list caps, .list ms] => do pure ⟨← caps.mapM str, ← ms.mapM method⟩
+  | _ => bad "impl" s
+
+end TDecode
+
+/-- `template <(impl (caps…) (methods…))>`: the decision table against the testing host's
+`FooFeature` template → `V=<sorted rule classes or ->` -/
+def cmdTemplate (payload : String) : String :=
+  match Sexp.parse payload with
+  | none => "BAD-INPUT"
+  | some sx =>
+    match TDecode.impl sx with
+    | .error e => s!"DECODE-ERROR {Sexp.hexOfString e}"
+    | .ok i => s!"V={joinOrDash (sortStrings ((templateCheck fooFeature i).map TErr.name))}"
+
+/-- `trigger (trig <known> <cbKnown> <fromItself> <modifier> ((x<name> T)…) R (T…))`: the trigger
+decision table against the testing host's `minute` trigger → `V=<sorted rule classes or ->` -/
+def cmdTrigger (payload : String) : String :=
+  match Sexp.parse payload with
+  | some (.list [.atom "trig", tk, ck, fi, m, .list ps, r, .list as]) =>
+    let d : PDecode.D TrigCase := do
+      let params ← ps.mapM fun p => match p with
+        | .list [pn, pt] => do pure (← PDecode.str pn, ← TDecode.ty pt)
+        | _ => PDecode.bad "param" p
+      pure { triggerKnown := tk.asBool?.getD false, callbackKnown := ck.asBool?.getD false, fromItself := fi.asBool?.getD false,
+             modifier := m.asNat?.getD 0, cbParams := params, cbRet := ← TDecode.ty r,
+             expParams := [("elapsed", .int)], expRet := .null, trigParams := [.int], argTys := ← as.mapM TDecode.ty }
+    match d with
+    | .error e => s!"DECODE-ERROR {Sexp.hexOfString e}"
+    | .ok c => s!"V={joinOrDash (sortStrings ((triggerCheck c).map TrigErr.name))}"
+  | _ => "BAD-INPUT"
+
 def dispatchAnalyzer (cmd : String) (payload : String) : Option String :=
   match cmd with
   | "check" => some (cmdCheck payload)
+  | "template" => some (cmdTemplate payload)
+  | "trigger" => some (cmdTrigger payload)
   | _ => none
 
 end Driver
